@@ -990,19 +990,24 @@ func isNaNBits(v uint64, w int) bool {
 	return f != f
 }
 
-// fpResult makes a fresh BV constrained to be the IEEE encoding of the FP expression expr (SMT-LIB text over %i).
+// fpResult is the IEEE encoding of the FP expression expr (SMT-LIB text over %i): a direct function of the
+// operands (fp.to_ieee_bv) when the value is not a NaN, and an unconstrained quiet NaN when it is (payload
+// propagation is not part of Go's or WebAssembly's contract; IEEE 754-2008 hardware delivers quiet NaNs).
 func (ex *Exec) fpResult(expr string, w int, args ...*Term) *Term {
-	// a deterministic name so that hash-consing gives one result per distinct operation
-	probe := ex.tb.Raw("fpres:"+expr, BV(w), args...)
-	name := fmt.Sprintf("fp!%d", probe.id)
-	if v, ok := ex.tb.vars[name]; ok {
-		return v
+	tb := ex.tb
+	val := tb.Raw("(fp.to_ieee_bv "+expr+")", BV(w), args...)
+	isNaN := tb.Raw("(fp.isNaN "+expr+")", BoolSort, args...)
+	name := fmt.Sprintf("fpnan!%d", val.id)
+	nan, ok := tb.vars[name]
+	if !ok {
+		nan = tb.Var(name, BV(w))
+		var m uint64 = 0x7fc00000
+		if w == 64 {
+			m = 0x7ff8000000000000
+		}
+		tb.AddAxiom(nan, tb.Eq(tb.And(nan, tb.Const(m, w)), tb.Const(m, w)))
 	}
-	r := ex.tb.Var(name, BV(w))
-	all := append(append([]*Term(nil), args...), r)
-	ax := ex.tb.Raw(fmt.Sprintf("(= (%s %%%d) %s)", fpSort(w), len(args), expr), BoolSort, all...)
-	ex.tb.axioms = append(ex.tb.axioms, ax)
-	return r
+	return tb.Ite(isNaN, nan, val)
 }
 
 func (ex *Exec) fpBinop(op token.Token, a, b *Term) Value {
@@ -1059,6 +1064,9 @@ func (ex *Exec) fpBinop(op token.Token, a, b *Term) Value {
 				return tb.Bool(x >= y)
 			}
 		}
+	}
+	if (op == token.ADD || op == token.MUL) && a.id > b.id {
+		a, b = b, a // commutative in value; NaN payloads are unconstrained anyway
 	}
 	switch op {
 	case token.ADD:
